@@ -6,6 +6,7 @@ import (
 	"net/http"
 	"net/url"
 	"regexp"
+	"strings"
 	"sync"
 
 	chi "github.com/go-chi/chi/v5"
@@ -176,7 +177,13 @@ func (m *mux) ResolvePattern(r *http.Request) string {
 	if ctx == nil {
 		return ""
 	}
-	return m.resolveWildcard(r.Method, ctx.RoutePattern())
+	pattern := ctx.RoutePattern()
+	// chi trims the trailing slash of the route pattern, put it back if the
+	// handler was registered with one.
+	if n := len(ctx.RoutePatterns); n > 0 && pattern != "/" && strings.HasSuffix(ctx.RoutePatterns[n-1], "/") {
+		pattern += "/"
+	}
+	return m.resolveWildcard(r.Method, pattern)
 }
 
 // resolveWildcard returns the route pattern with the wildcard replaced by the
